@@ -570,7 +570,10 @@ def _gen_corrupt(r, fmt, lines, ann):
             elif kind == "BOND" and len(toks) >= 4:
                 for t in (1, 2):
                     cands.append(("num", li, t, kind))
+                    cands.append(("range", li, t, kind))
                 cands.append(("id", li, 0, kind))
+            elif kind.endswith(":rec") and len(toks) == 2:
+                cands.append(("range", li, 0, kind.split(":")[0]))
             elif kind == "header" and toks and all(x.lstrip("-").isdigit() for x in toks) and li > 0 and ann[li - 2][2] == "tag:MOLECULE":
                 for t in range(min(2, len(toks))):
                     cands.append(("count", li, t, kind))
@@ -594,6 +597,11 @@ def _gen_corrupt(r, fmt, lines, ann):
             return {"kind": "corrupt", "line": li, "tok": t, "with": toks[t][:k_] + r.choice(["\udce9", "\udcff", "\udc80"]) + toks[t][k_ + 1:],
                     "what": "byte", "entry": "mol.load_all@path"}
         return {"kind": "corrupt", "line": li, "tok": t, "with": r.choice(_BAD_NUM), "what": "numeric"}
+    if what == "range":
+        # an atom (or record) index that no atom of this molecule has: 0, a negative number, a number past the last atom.
+        # (An index changed into ANOTHER VALID index is not generated - no reader can see that; these a reader can.)
+        n_atoms = sum(1 for a_ in ann if a_[2] == "ATOM") + 50
+        return {"kind": "corrupt", "line": li, "tok": t, "with": r.choice(["0", "0", "-1", "-2", str(n_atoms), str(n_atoms + 7)]), "what": "range"}
     if what == "id":
         # the record's own serial number becomes the serial number of a NEIGHBOURING record: two records carry one id and one
         # id is missing.  (A reader that goes by file order returns the undamaged molecule, one that goes by id must notice.)
